@@ -10,6 +10,8 @@
 //   DA / DI                       deliver what is in flight towards the acceptor / initiator (one FIX message per chunk)
 //   D                             DA, DI until nothing is in flight (at most 6 rounds)
 //   DROP                          in-flight bytes lost, both sides re-created on their persister files (acceptor first)
+//   CFG <a> <b>                   in-flight bytes lost, both sides re-created with start numbers: initiator ss=a rs=b,
+//                                 acceptor ss=b rs=a (later reconnects recover from the files only)
 //   RI / RA                       process restart of the initiator / acceptor: what is in flight towards the survivor
 //                                 still arrives (its answers are discarded), the rest is lost, then as DROP
 // Result line: one step per operation (step 0 = creation), "<initiator events;snapshot> # <acceptor events;snapshot>",
@@ -46,6 +48,21 @@ public:
 	void op(const std::vector<std::string>& toks)
 	{
 		try { run_op(toks); }
+		catch (FIX8::f8Exception& e) { _log.add(std::string("EXC f8Exception")); }
+		catch (Poco::Exception& e) { _log.add(std::string("EXC Poco::") + e.name()); }
+		catch (std::exception& e) { _log.add("EXC std::exception"); }
+		const std::string evs(_log.take());
+		if (!evs.empty())
+		{
+			if (!_events.empty()) _events += ';';
+			_events += evs;
+		}
+	}
+
+	// teardown, then START with these parameters on the same persister files
+	void restart_with(const std::vector<std::string>& start_toks)
+	{
+		try { teardown(); parse_params(start_toks); start(); }
 		catch (FIX8::f8Exception& e) { _log.add(std::string("EXC f8Exception")); }
 		catch (Poco::Exception& e) { _log.add(std::string("EXC Poco::") + e.name()); }
 		catch (std::exception& e) { _log.add("EXC std::exception"); }
@@ -106,6 +123,12 @@ struct Two
 
 	explicit Two(const std::string& root) : i(root + "-I"), a(root + "-A") {}
 
+	static bool all_digits(const std::string& s)
+	{
+		if (s.empty()) return false;
+		for (char c : s) if (c < '0' || c > '9') return false;
+		return true;
+	}
 	static void append(Flight& f, const std::vector<std::string>& w) { f.insert(f.end(), w.begin(), w.end()); }
 
 	void send(Side& s, Flight& f, const std::string& spec)
@@ -128,11 +151,12 @@ struct Two
 	void deliver_a() { append(ai, deliver(a, ia)); }
 	void deliver_i() { append(ia, deliver(i, ai)); }
 
-	void reconnect()
+	// both sides re-created on their files; ss/rs = Session::start's send / receive number arguments (0 = recover only)
+	void reconnect(const std::string& i_ss = "0", const std::string& i_rs = "0")
 	{
 		ia.clear(); ai.clear();
-		a.op({"RESTART"});
-		i.op({"RESTART"});
+		a.restart_with({"START", "A", "file", "asa=0", "ss=" + i_rs, "rs=" + i_ss});
+		i.restart_with({"START", "I", "file", "asa=0", "ss=" + i_ss, "rs=" + i_rs});
 		ia = i.take_writes();
 		ai = a.take_writes();
 	}
@@ -142,6 +166,7 @@ struct Two
 		const std::string& op(t[0]);
 		if (op == "SI" && t.size() == 2) send(i, ia, t[1]);
 		else if (op == "SA" && t.size() == 2) send(a, ai, t[1]);
+		else if (op == "CFG" && t.size() == 3 && all_digits(t[1]) && all_digits(t[2])) reconnect(t[1], t[2]);
 		else if (t.size() != 1) { i.note("BADOP"); a.note("BADOP"); }
 		else if (op == "DA") deliver_a();
 		else if (op == "DI") deliver_i();
